@@ -184,13 +184,14 @@ struct World {
     bool twin_safe;             // this run is one of a pair (observed / unobserved execution of the same plan): kills, drops, flush faults and stale-handle use are skipped in both
     bool blind;                 // the unobserved twin: nothing is read back before the final restart
     bool next_open_force;       // the next open passes OpenFlags::Force
+    int path_shape;             // how the program names its file (see World::open_path)
     bool via_symlink;           // the program names the file through a symbolic link (path shapes are part of the environment)
     std::string open_path();    // the name under which the current file is opened
     bool threaded_run;          // some operations of this run are issued from a second caller thread (started and joined per operation)
     bool ghosts_allowed;        // keep handles to deleted / still-live entities across operations (abuse, durable lanes)
 
     World() : file_gen(0), f2_open(false), is_open(false), mode(0), session(0), cur(-1), have_last(false), flush_valid(false), ro_tracking(false),
-              ro_writes0(0), ro_wopens0(0), getters(0), sim_start(0), stop(false), next_open_force(false), via_symlink(false), twin_safe(false), blind(false), threaded_run(false), ghosts_allowed(false), del_result(false) { prefer_live = false; viol_own = false; lookups_due = true; }
+              ro_writes0(0), ro_wopens0(0), getters(0), sim_start(0), stop(false), path_shape(0), next_open_force(false), via_symlink(false), twin_safe(false), blind(false), threaded_run(false), ghosts_allowed(false), del_result(false) { prefer_live = false; viol_own = false; lookups_due = true; }
 
     // -- running
     void run(const Plan &p, const std::string &dir);
